@@ -39,3 +39,158 @@ def zmin(a, b):
 
 def zmax(a, b):
     return z3.If(a >= b, a, b)
+
+
+# --------------------------------------------------------------------------------------
+# models, admissible symbolic states, physical fluxes (written from the equations)
+
+MODEL_KINDS = ["convection", "burgers", "shallowwater", "euler1d", "nozzle", "euler2d"]
+
+
+def section_law():
+    """abstract positive section law A(x) (uninterpreted), elementwise on arrays"""
+    Af = z3.Function("Asec", z3.RealSort(), z3.RealSort())
+
+    def law(x):
+        def one(v):
+            t = Af(T.treal(v))
+            T.cur().add_fact(t > 0)
+            return t
+        return A.elementwise(one, [x], name="A(x)")
+    return UserFunc("sectionlaw", law), Af
+
+
+def make_model(chk, kind, source=None, params=None):
+    """instantiate the real model class through the interpreter with symbolic parameters"""
+    it = chk.interp
+    params = params or {}
+    if kind == "convection":
+        a = params.get("a", z3.Real("aconv"))
+        m = it.call(get(chk, "flowdyn.modelphy.convection", "model"), [a], {})
+        return m, {"a": a}
+    if kind == "burgers":
+        return it.call(get(chk, "flowdyn.modelphy.burgers", "model"), [], {}), {}
+    if kind == "shallowwater":
+        g = params.get("g", z3.Real("grav"))
+        assume(g > 0)
+        m = it.call(get(chk, "flowdyn.modelphy.shallowwater", "shallowwater1d"), [], {"g": g, "source": source})
+        return m, {"g": g}
+    gam = params.get("gamma", z3.Real("gamma"))
+    assume(gam > 1)
+    if kind == "euler1d":
+        m = it.call(get(chk, "flowdyn.modelphy.euler", "euler1d"), [], {"gamma": gam, "source": source})
+        return m, {"gamma": gam}
+    if kind == "nozzle":
+        law, Af = section_law()
+        m = it.call(get(chk, "flowdyn.modelphy.euler", "nozzle"), [law], {"gamma": gam, "source": source})
+        return m, {"gamma": gam, "A": Af, "law": law}
+    if kind == "euler2d":
+        m = it.call(get(chk, "flowdyn.modelphy.euler", "euler2d"), [], {"gamma": gam, "source": source})
+        return m, {"gamma": gam}
+    raise ValueError(kind)
+
+
+def flux_names(model, kind):
+    if kind in ("convection", "burgers"):
+        return [None]
+    names = sorted(model.attrs["_numfluxdict"].attrs["dict"].keys())
+    return names
+
+
+def _pos(arr):
+    uf = arr.uf
+    arr.inv = lambda i: uf(T.tz(i)) > 0
+    return arr
+
+
+def prim_state(kind, n, tag):
+    """admissible symbolic primitive state arrays of length n"""
+    if kind in ("convection", "burgers"):
+        return [A.input_array("q" + tag, n)]
+    if kind == "shallowwater":
+        return [_pos(A.input_array("h" + tag, n)), A.input_array("u" + tag, n)]
+    if kind in ("euler1d", "nozzle"):
+        return [_pos(A.input_array("rho" + tag, n)), A.input_array("u" + tag, n), _pos(A.input_array("p" + tag, n))]
+    if kind == "euler2d":
+        return [_pos(A.input_array("rho" + tag, n)),
+                A.Sym2D([A.input_array("ux" + tag, n), A.input_array("uy" + tag, n)]),
+                _pos(A.input_array("p" + tag, n))]
+    raise ValueError(kind)
+
+
+def flat_at(data, i):
+    """flatten a data list (arrays / 2-D arrays) at index i to a list of scalar terms"""
+    out = []
+    for d in data:
+        if isinstance(d, A.Sym2D):
+            out.extend(T.treal(r.at(i)) for r in d.rows)
+        elif isinstance(d, A.SymArray):
+            out.append(T.treal(d.at(i)))
+        else:
+            out.append(T.treal(d))
+    return out
+
+
+def comp_names(kind):
+    return {"convection": ["q"], "burgers": ["u"], "shallowwater": ["h", "hu"],
+            "euler1d": ["rho", "rhou", "rhoE"], "nozzle": ["rho", "rhou", "rhoE"],
+            "euler2d": ["rho", "rhoux", "rhouy", "rhoE"]}[kind]
+
+
+def parity(kind):
+    """sigma_k under x -> -x: -1 for the flux of reflection-even quantities, +1 for odd ones"""
+    return {"convection": [-1], "burgers": [1], "shallowwater": [-1, 1],
+            "euler1d": [-1, 1, -1], "nozzle": [-1, 1, -1], "euler2d": [-1, 1, 1, -1]}[kind]
+
+
+def physical_flux(kind, W, info, normal=None):
+    """physical flux f(W) of a primitive state (list of scalar terms)"""
+    if kind == "convection":
+        return [info["a"] * W[0]]
+    if kind == "burgers":
+        return [W[0] * W[0] / 2]
+    if kind == "shallowwater":
+        h, u = W
+        return [h * u, h * u * u + info["g"] * h * h / 2]
+    g = info["gamma"]
+    if kind in ("euler1d", "nozzle"):
+        r, u, p = W
+        H = g / (g - 1) * p / r + u * u / 2
+        return [r * u, r * u * u + p, r * u * H]
+    if kind == "euler2d":
+        r, ux, uy, p = W
+        nx, ny = normal
+        un = ux * nx + uy * ny
+        H = g / (g - 1) * p / r + (ux * ux + uy * uy) / 2
+        return [r * un, r * un * ux + p * nx, r * un * uy + p * ny, r * un * H]
+    raise ValueError(kind)
+
+
+def mirror_state(kind, data):
+    """M W: negate velocities"""
+    neg = lambda x: A.elementwise(T.neg, [x], name="neg")
+    if kind == "convection":
+        return [data[0]]
+    if kind == "burgers":
+        return [neg(data[0])]
+    if kind == "shallowwater":
+        return [data[0], neg(data[1])]
+    return [data[0], neg(data[1]), data[2]]
+
+
+def call_numflux(chk, model, kind, name, pL, pR, dirv=None):
+    it = chk.interp
+    f = it.getattr(model, "numflux")
+    if kind == "euler2d":
+        return it.call(f, [name, pL, pR, dirv], {})
+    return it.call(f, [name, pL, pR], {})
+
+
+def normals(kind, n):
+    """face normal arrays to enumerate: both face directions in 2-D"""
+    if kind != "euler2d":
+        return [("", None, None)]
+    out = []
+    for nm, v in (("dir=x", (1, 0)), ("dir=y", (0, 1))):
+        out.append((nm, A.Sym2D([A.full(n, v[0]), A.full(n, v[1])]), v))
+    return out
